@@ -18,8 +18,8 @@ LEVEL = "exploration"
 PLAN = {
     "quick": {"hashseeds": 12, "shards": 4, "generated": 240, "skip": ["1gid.cif.gz"], "cli_all_variants": False,
               "timeout": 600, "light_hashseeds": 16, "light_max_cost": 150_000, "adapter_generated": 36, "derived_rounds": 1, "unifier_generated": 8, "pairfuzz": 10, "crossmap": 4},
-    "thorough": {"hashseeds": 48, "shards": 4, "generated": 4000, "skip": [], "cli_all_variants": True,
-                 "timeout": 5400, "light_hashseeds": 80, "light_max_cost": 150_000, "adapter_generated": 600, "derived_rounds": 8, "unifier_generated": 120, "pairfuzz": 120, "crossmap": 40},
+    "thorough": {"hashseeds": 32, "shards": 4, "generated": 2000, "skip": [], "cli_all_variants": True,
+                 "timeout": 5400, "light_hashseeds": 48, "light_max_cost": 150_000, "adapter_generated": 300, "derived_rounds": 4, "unifier_generated": 60, "pairfuzz": 80, "crossmap": 20},
 }
 
 ASSUMPTIONS = [
